@@ -176,7 +176,8 @@ def wellshaped(rng, kind, axis_parallel):
     sp = lambda n: np.concatenate([[0.0], np.cumsum(rng.choice([0.5, 0.75, 1.0, 1.25], size=n))])
     if kind == "line":
         x = sp(int(rng.integers(2, 5)))
-        return G.MeshCase(skfem.MeshLine1(x[None, :]), "line", 1, {"gen": "line", "style": "unit-scale"})
+        t = np.vstack([np.arange(x.size - 1), np.arange(1, x.size)])
+        return G.MeshCase(skfem.MeshLine1(x[None, :], t), "line", 1, {"gen": "line", "style": "unit-scale"})
     if kind == "tri":
         if rng.random() < 0.5:
             m = skfem.MeshTri1.init_tensor(sp(2), sp(2))
